@@ -501,6 +501,16 @@ func (fc *FuncCtx) callFunction(x *ssa.Call, fn *ssa.Function, args []Val, bindi
 				env.vars[p.Name()] = args[i]
 			}
 		}
+		// positional names for wildcard contracts: recv, arg0.., nargs
+		first := 0
+		if fn.Signature.Recv() != nil && len(args) > 0 {
+			env.vars["recv"] = args[0]
+			first = 1
+		}
+		for i := first; i < len(args); i++ {
+			env.vars[fmt.Sprintf("arg%d", i-first)] = args[i]
+		}
+		env.vars["nargs"] = mathInt(fmt.Sprint(len(args) - first))
 		for i, fv := range fn.FreeVars {
 			if i < len(bindings) {
 				b := bindings[i]
@@ -526,7 +536,11 @@ func (fc *FuncCtx) callFunction(x *ssa.Call, fn *ssa.Function, args []Val, bindi
 		}
 		fc.withTypeArgs(fn, func() {
 			for j, r := range ct.Requires {
-				fc.oblige(fmt.Sprintf("%s/pre%d", name, j), "pre", reach, fc.evalBool(env, r.E), pos, r.Text)
+				g, ok := fc.tryEvalBool(env, r.E)
+				if !ok {
+					continue // names an argument this call does not have (wildcard contracts)
+				}
+				fc.oblige(fmt.Sprintf("%s/pre%d", name, j), "pre", reach, g, pos, r.Text)
 			}
 		})
 		if ct.Decr != nil && fn == fc.Fn && fc.C != nil && fc.C.Decr != nil {
@@ -765,7 +779,8 @@ func (fc *FuncCtx) declarePure(fn *ssa.Function) string {
 				post = append(post, fc.evalBool(env, e.E))
 			}
 		})
-		post = append(post, fc.typeInv(fc.init, app, rt))
+		// (no type invariant on the result here: interface-typed arguments range over
+		// values that carry none, which would make the axiom contradictory)
 		fc.specHdr = append(fc.specHdr, "(assert (forall ("+strings.Join(binds, " ")+") (! "+implies(and(append(guards, pre...)...), and(post...))+" :pattern ("+app+"))))")
 	}
 	return name
